@@ -72,10 +72,17 @@ func (s BPlusTreeStore) Get(table storage.Table, key []byte) (*storage.KVPair, e
 
 func (s BPlusTreeStore) GetLast(table storage.Table) (*storage.KVPair, error) {
 	result := new(storage.KVPair)
-	s.db.DescendGreaterThan(KVItem{[]byte{table.Prefix()}, nil}, func(i btree.Item) bool {
+	prefix := table.Prefix()
+	// descend from the first possible key of the next table down to the last key of this one
+	s.db.DescendLessOrEqual(KVItem{[]byte{prefix + 1}, nil}, func(i btree.Item) bool {
 		item := i.(KVItem)
-		result.Key = item.Key[1:]
-		result.Value = item.Value
+		if item.Key[0] > prefix {
+			return true
+		}
+		if item.Key[0] == prefix {
+			result.Key = item.Key[1:]
+			result.Value = item.Value
+		}
 		return false
 	})
 	if result.Key == nil {
